@@ -182,6 +182,24 @@ one-feature scikit-learn tree, so the theorems above apply to them as well -/
 theorem digitize_tree_wf (bins : List Rat) (right : Bool) (T : DTree) (_h : digitize2tree bins right = .ok T) :
     WF (toArrays T).1 1 := toArrays_wf T
 
+/-! ### the tie to the functions the model transcribes -/
+
+/-- the functions the hand-written model transcribes have, in the current source, the control skeleton (tests, loop
+headers, kinds of statements and the names they bind) they had when the model was written and validated: no branch,
+loop, early exit or rebinding has been added that the model does not describe -/
+theorem modelled_functions_have_the_transcribed_shape :
+    MlVerif.Gen.C12.shapeDigitize2tree =
+      "if(not right){raise};ascending=;if(not ascending){bins2=;cl=;n=;for(i in range(cl.tree_.value.shape[0])){cl.tree_.value[]=};return};tree=;values=;UNUSED=;n_nodes=;def add_root{assert;parent=;is_left=;is_leaf=;threshold=;n=;call append;call append;return};def add_nodes{if(is_left){if(i == j){n=;call append;call append;return};if(i + 1 == j){call append;th=;n=;call append;call add_nodes;call add_nodes;return};if(i + 1 < j){call append;index=;th=;n=;call append;call add_nodes;call add_nodes;return}}else{if(i + 1 == j){call append;n=;call append;return};if(i + 1 < j){call append;index=;th=;n=;call append;call add_nodes;call add_nodes;return}};raise};index=;call add_root;call add_nodes;call add_nodes;cl=;cl.tree_=;cl.tree_.value[]=;cl.n_outputs=;cl.n_outputs_=;cl.n_features_in_=;return" ∧
+    MlVerif.Gen.C12.shapeTreeLeaveIndex =
+      "tree=;res=;for(i in range(tree.node_count)){if(tree.children_left[i] == TREE_LEAF){call append}};return" ∧
+    MlVerif.Gen.C12.shapeTreeNodeRange =
+      "tree=;if(parents is None){parents=};path=;res=;for((ind,p) in enumerate(path)){if(p == i){break};fn=;lr=;th=;if(lr){res[]=}else{res[]=}};return" ∧
+    MlVerif.Gen.C12.shapePredictLeaves =
+      "if(hasattr(model, 'get_leaves_index')){leaves_index=}else{leaves_index=};leaves=;leaves=;mat=;res=;res=;return" ∧
+    MlVerif.Gen.C12.shapeTreeNodeParents =
+      "tree=;parents=;for(i in range(tree.node_count)){if(tree.children_left[i] == TREE_LEAF){continue};parents[]=;parents[]=};return" :=
+  ⟨rfl, rfl, rfl, rfl, rfl⟩
+
 /-! ### non-vacuity: concrete instances satisfying the hypotheses -/
 
 example : StrictAsc [1, 2, 5/2, 4, 7] ∧ StrictDesc [5, 3, 1] := by
